@@ -60,3 +60,27 @@ def replay(res, records, what):
         res.violation("model-run", "model replay (%s) failed: %s" % (what, mout[-800:]))
         return 0, []
     return int(done[0].split()[1]), mism
+
+
+def td_faults(res, exe):
+    """mode D of harness/t_osfree.c: thread metadata allocation with the first / second / both mmap attempts refused"""
+    ok, rc, out, err = run_harness(exe, ["D", 1])
+    if not ok:
+        res.violation("impl:thread-data-crash", "t_osfree D (thread metadata under OS refusals) exited with %d: %s" % (rc, err[-400:]), witness="t_osfree D")
+        return 0
+    n = 0
+    for l in out.splitlines():
+        if not l.startswith("T td "): continue
+        k, d = kv(l); n += 1
+        what = {0: "no refusal", 1: "the first mmap refused", 2: "(second attempt never made)", 3: "both mmap attempts refused"}[d["mask"]]
+        wit = "mi_thread_data_zalloc with %s; mi_thread_data_free; _mi_thread_data_collect  [%s]" % (what, l)
+        if d["ok"] != d["expect_ok"]:
+            res.violation("impl:thread-data-alloc", "thread metadata allocation with %s %s" % (what, "failed" if d["expect_ok"] else "succeeded"), witness=wit)
+        elif d["ok"] and not d["zero"]:
+            res.violation("impl:thread-data-not-zero", "thread metadata is not zero-initialised (%s)" % what, witness=wit)
+        elif d["mapped_after"] != d["mapped_before"] or d["nmaps_after"] != d["nmaps_before"]:
+            res.violation("impl:thread-data-not-released", "thread metadata obtained with %s is never unmapped: %d bytes in %d mappings left after mi_thread_data_free and "
+                          "_mi_thread_data_collect (memid kind %d)" % (what, d["mapped_after"] - d["mapped_before"], d["nmaps_after"] - d["nmaps_before"], d["memkind"]), witness=wit)
+    res.cov["evaluations"] += n
+    res.cov.setdefault("input_distribution", {})["thread_data_fault_cases"] = n
+    return n
